@@ -52,10 +52,11 @@ def check(ctx):
     ctx.no_shape_conflicts("Shape", "_directional_convex_hull_distance", I, 0, site)
     ctx.shape_is("Shape", "one distance per point", r, ("V",), site)
     # ---- fit --------------------------------------------------------------------------------------------
-    for low, refit in (([0, 1], False), ([2], False), ([0, 1], True), ([2], True)):
+    # widths: any number of columns, and exactly one high-dimensional column besides the hull columns
+    for low, refit, width in (([0, 1], False, "M"), ([2], False, "M"), ([0, 1], True, "M"), ([2], True, "M"), ([0, 1], False, 3), ([0], False, 2)):
         I, st = ctx.interp(assume=protocols.assume_default), State()
         o = ctx.construct(I, st, cls, low_dim_idx=low)
-        X, y = arr("X", "N", "M"), arr("y", "N")
+        X, y = arr("X", "N", width), arr("y", "N")
         if refit:
             # the same object fitted before on other data (other numbers of samples and columns):
             # everything a fit defines is rebuilt from the new data
@@ -63,7 +64,7 @@ def check(ctx):
         lo = len(I.events)
         r = ctx.call_method(I, st, o, "fit", X, y)
         site = ctx.site(P.method(cls, "fit"))
-        cfg = f"low_dim_idx={low}" + (",refit" if refit else "")
+        cfg = f"low_dim_idx={low}" + (",refit" if refit else "") + (f",{width} columns" if width != "M" else "")
         I2, s2 = ctx.interp(assume=protocols.assume_default), State()
         lowv = I2.mk_list([vconst(i) for i in low])
         ref = ctx.call_func(I2, s2, "ref.dch_ref.dch_fit", X, arr("y", "N", 1), lowv)
@@ -98,7 +99,7 @@ def check(ctx):
         ctx.no_shape_conflicts("Shape", f"fit [{cfg}]", I, lo, site, cfg)
         ctx.ob("R-SELF", f"fit returns self [{cfg}]", r.kind == "obj" and r.obj is o.obj, f"{r!r}", site, cfg, nontrivial=False)
         # ---- score_samples ------------------------------------------------------------------------------
-        Xq, yq = arr("Xq", "V", "M"), arr("yq", "V")
+        Xq, yq = arr("Xq", "V", width), arr("yq", "V")
         eqs = ctx.attr(st, o, "_directional_equations_")
         tolv = ctx.attr(st, o, "tolerance")
         lo = len(I.events)
@@ -111,10 +112,11 @@ def check(ctx):
         ctx.shape_is("Shape", f"score_samples: one value per sample [{cfg}]", r, ("V",), site_s, cfg)
         # ---- score_feature_matrix -------------------------------------------------------------------------
         lo = len(I.events)
-        r = ctx.call_method(I, st, o, "score_feature_matrix", arr("Xq2", "V", "M"))
+        r = ctx.call_method(I, st, o, "score_feature_matrix", arr("Xq2", "V", width))
         site_f = ctx.site(P.method(cls, "score_feature_matrix"))
         t = r.term
         hd = ctx.attr(st, o, "high_dim_idx_")
         ok = t.op == "sub" and N.nf(t.args[0]) == N.nf(T("getitem", T("sym", "Xq2"), T("tuple", T("slice", T("const", None), T("const", None), T("const", None)), hd.term))) and t.args[1].op == "apply" and "Xq2" in repr(t.args[1])
         ctx.ob("R-SIGNED", f"score_feature_matrix = high-dim features - interpolated(low-dim features) [{cfg}]", ok, repr(t)[:200], site_f, cfg)
         ctx.no_shape_conflicts("Shape", f"score_feature_matrix [{cfg}]", I, lo, site_f, cfg)
+        ctx.shape_is("Shape", f"score_feature_matrix: one residual per sample and high-dimensional column [{cfg}]", r, ("V", Dim.of(width) - len(low)), site_f, cfg)
